@@ -155,10 +155,10 @@ func checkProperty(prog *Program, prop, tier string, seed, timeoutS int, loadS f
 			unknownViols = append(unknownViols, v)
 		}
 	}
-	os.MkdirAll(filepath.Join(verifDir, "replay"), 0o755)
+	os.MkdirAll(filepath.Join(outDir, "replay"), 0o755)
 	for _, v := range unknownViols {
 		exit = 1
-		rp := filepath.Join(verifDir, "replay", prop+"-"+fileSafe(v.obl)+".txt")
+		rp := filepath.Join(outDir, "replay", prop+"-"+fileSafe(v.obl)+".txt")
 		replayed := replayViolation(prog, prop, v, rp)
 		suffix := ""
 		if !replayed {
@@ -167,8 +167,8 @@ func checkProperty(prog *Program, prop, tier string, seed, timeoutS int, loadS f
 		fmt.Printf("VIOLATION property=%s replay=%s obligation=%s%s\n", prop, rp, v.obl, suffix)
 	}
 	if nObl == 0 && exit == 0 {
-		fmt.Printf("VIOLATION property=%s replay=%s obligation=none-generated no-failing-input-found\n", prop, filepath.Join(verifDir, "replay", prop+"-vacuous.txt"))
-		os.WriteFile(filepath.Join(verifDir, "replay", prop+"-vacuous.txt"), []byte("no obligations were generated for "+prop+"\n"), 0o644)
+		fmt.Printf("VIOLATION property=%s replay=%s obligation=none-generated no-failing-input-found\n", prop, filepath.Join(outDir, "replay", prop+"-vacuous.txt"))
+		os.WriteFile(filepath.Join(outDir, "replay", prop+"-vacuous.txt"), []byte("no obligations were generated for "+prop+"\n"), 0o644)
 		exit = 1
 	}
 	// evidence
@@ -219,8 +219,8 @@ func checkProperty(prog *Program, prop, tier string, seed, timeoutS int, loadS f
 		ev.Coverage["obligations"] = 0
 	}
 	data, _ := json.MarshalIndent(ev, "", " ")
-	os.MkdirAll(filepath.Join(verifDir, "evidence"), 0o755)
-	os.WriteFile(filepath.Join(verifDir, "evidence", prop+".json"), data, 0o644)
+	os.MkdirAll(filepath.Join(outDir, "evidence"), 0o755)
+	os.WriteFile(filepath.Join(outDir, "evidence", prop+".json"), data, 0o644)
 	fmt.Printf("%s: %d functions under contract, %d obligations, %d discharged, %d violations, %.1fs\n", prop, len(keys), nObl, nDis, len(unknownViols), time.Since(start).Seconds()+loadS)
 	if verbose {
 		for _, o := range all {
@@ -233,15 +233,15 @@ func checkProperty(prog *Program, prop, tier string, seed, timeoutS int, loadS f
 func round3(f float64) float64 { return float64(int(f*1000+0.5)) / 1000 }
 
 func writeLoadFailure(prop, tier string, seed int, err error, wall float64) {
-	os.MkdirAll(filepath.Join(verifDir, "replay"), 0o755)
-	rp := filepath.Join(verifDir, "replay", prop+"-load-failure.txt")
+	os.MkdirAll(filepath.Join(outDir, "replay"), 0o755)
+	rp := filepath.Join(outDir, "replay", prop+"-load-failure.txt")
 	os.WriteFile(rp, []byte("the repository (with -tags verif) does not load/type-check:\n"+err.Error()+"\n"), 0o644)
 	fmt.Printf("VIOLATION property=%s replay=%s obligation=load no-failing-input-found\n", prop, rp)
 	ev := evidence{PropertyID: prop, Tier: tier, Seed: seed, Level: "proof", WallS: wall, Violations: 1,
 		Coverage: map[string]any{"obligations": 1, "discharged": 0, "checker_cmd": "/verif/bin/gbv check " + prop, "trusted_base": []string{}, "explanation": "load failure: " + err.Error()}}
 	data, _ := json.MarshalIndent(ev, "", " ")
-	os.MkdirAll(filepath.Join(verifDir, "evidence"), 0o755)
-	os.WriteFile(filepath.Join(verifDir, "evidence", prop+".json"), data, 0o644)
+	os.MkdirAll(filepath.Join(outDir, "evidence"), 0o755)
+	os.WriteFile(filepath.Join(outDir, "evidence", prop+".json"), data, 0o644)
 }
 
 // replayViolation writes the replay file; returns true if a concrete failing input was confirmed on the real code.
